@@ -1,10 +1,167 @@
-import Martian.Util
-/-! STUB — property C19 is not built yet. -/
-namespace Martian.Drv.C19
-open Martian
+import Martian.Model.Marbl
+/-!
+Driver for C19. Ops (kept in step with go/internal/c19):
 
-abbrev St := Unit
-def init : St := ()
-def step (s : St) (_toks : List String) : St × String := (s, "bad-op")
+* `read <hex>` — feed the bytes to the frame reader until it fails:
+  `<frame> <frame> … end=<eof|ueof|unknown|panic>`
+* `m <msg>` … `run` — same as `log`, the messages given one per op
+* `log <msg> <msg> …` — the messages are logged concurrently; the model writes the frames of the
+  messages one message after the other (one of the interleavings; by
+  `interleaved_messages_recovered` the projection below does not depend on which), reads the
+  stream back with `readAll` and prints per message the projection on its (id, type):
+  header frames sorted, data frames in stream order, what the wrapper returned to the consumer.
+  msg = kind/id/api/pseudo,…/host/cl/te/hdrs/reads  (see `parseMsg`).
+-/
+namespace Martian.Drv.C19
+open Martian Martian.Marbl
+
+/-- messages queued by `m` ops for the next `run` -/
+abbrev St := List String
+def init : St := []
+
+def fnv (bs : Bytes) : UInt64 :=
+  bs.foldl (fun h b => (h ^^^ b.toUInt64) * 1099511628211) 14695981039346656037
+
+def hex64 (x : UInt64) : String :=
+  String.ofList ((List.range 16).map fun i => hexDigit ((x >>> (UInt64.ofNat (60 - 4 * i))).toNat % 16))
+
+def bit (b : Bool) : String := if b then "1" else "0"
+
+def showFrame : Frame → String
+  | .header mt id n v => s!"h.{mt.toNat}.{hex id}.{hex n}.{hex v}"
+  | .data mt id i t p => s!"d.{mt.toNat}.{hex id}.{i}.{bit t}.{p.length}.{hex64 (fnv p)}"
+
+def showStop : Stop → String
+  | .err .eof => "eof"
+  | .err .unexpectedEOF => "ueof"
+  | .err .unknownType => "unknown"
+  | .panic => "panic"
+  | .fuel => "fuel"
+
+def readOp (bs : Bytes) : String :=
+  let r := readAll bs
+  " ".intercalate (r.1.map showFrame ++ [s!"end={showStop r.2}"])
+
+/-! ### parsing of a `log` message token -/
+
+/-- `p<len>.<start>` = `len` bytes `(start+i) % 251`, otherwise hex. -/
+def dataTok (s : String) : Option Bytes :=
+  if s.startsWith "p" then
+    match (s.drop 1).toString.splitOn "." with
+    | [l, st] => do
+      let l ← l.toNat?; let st ← st.toNat?
+      pure ((List.range l).map fun i => UInt8.ofNat ((st + i) % 251))
+    | _ => none
+  else unhex s
+
+def hexList (s : String) : Option (List Bytes) :=
+  if s = "_" then some [] else (s.splitOn ",").mapM unhex
+
+def parseErr : String → Option RdErr
+  | "n" => some .none
+  | "e" => some .eof
+  | "x" => some .other
+  | _ => none
+
+/-- `N<k>`: the body is `http.NoBody` and the consumer reads it k times (each `(0, io.EOF)`). -/
+def parseNoBody (s : String) : Option (List ReadRes) :=
+  if s.startsWith "N" then (s.drop 1).toString.toNat?.map fun k => List.replicate k ⟨[], .eof⟩ else none
+
+def parseReads (s : String) : Option (List ReadRes) :=
+  if s.startsWith "N" then parseNoBody s else
+  if s = "_" then some [] else
+  (s.splitOn ";").mapM fun r =>
+    match r.splitOn ":" with
+    | [d, e, _extra] => do let d ← dataTok d; let e ← parseErr e; pure ⟨d, e⟩
+    | _ => none
+
+def parseHdrs (s : String) : Option (List (Bytes × List Bytes)) :=
+  if s = "_" then some [] else
+  (s.splitOn ";").mapM fun kv =>
+    match kv.splitOn ":" with
+    | [k, vs] => do let k ← unhex k; let vs ← hexList vs; pure (k, vs)
+    | _ => none
+
+def parseTE (s : String) : Option (Option (List Bytes)) :=
+  if s = "n" then some none else if s = "e" then some (some []) else (hexList s).map some
+
+structure Msg where
+  mt : UInt8
+  id : Bytes
+  hdrs : List (Bytes × Bytes)
+  reads : List ReadRes
+  noBody : Bool
+
+def tsName : Bytes := strBytes ":timestamp"
+
+def parseMsg (tok : String) : Option Msg :=
+  match tok.splitOn "/" with
+  | [kind, id, api, pseudo, host, cl, te, hdrs, reads] => do
+    let id ← unhex id
+    let api ← (if api = "1" then some true else if api = "0" then some false else none)
+    let host ← unhex host
+    let cl ← cl.toInt?
+    let te ← parseTE te
+    let hdr ← parseHdrs hdrs
+    let nb := reads.startsWith "N"
+    let reads ← parseReads reads
+    let f : Fields := { hdr := hdr, host := host, cl := cl, clText := strBytes (toString cl.toNat), te := te }
+    let ps := pseudo.splitOn ","
+    if kind = "q" then
+      match ps with
+      | [m, sch, au, pa, qu, pr, rem] => do
+        let m ← unhex m; let sch ← unhex sch; let au ← unhex au; let pa ← unhex pa
+        let qu ← unhex qu; let pr ← unhex pr; let rem ← unhex rem
+        pure ⟨1, id, requestHeaders m sch au pa qu pr rem [] api f, reads, nb⟩
+      | _ => none
+    else if kind = "s" then
+      match ps with
+      | [pr, st, reason] => do
+        let pr ← unhex pr; let st ← st.toNat?; let reason ← unhex reason
+        pure ⟨2, id, responseHeaders pr (strBytes (toString st)) reason [] api f, reads, nb⟩
+      | _ => none
+    else none
+  | _ => none
+
+def showHdr (f : Frame) : String :=
+  let (n, v) := f.nameValue
+  if n == tsName then s!"{hex n}:ts" else s!"{hex n}:{hex v}:{hex64 (fnv (encode f))}"
+
+def showData (f : Frame) : String :=
+  s!"{f.index}:{bit f.terminal}:{f.payload.length}:{hex64 (fnv f.payload)}:{hex64 (fnv (encode f))}"
+
+def showRet (r : ReadRes) : String :=
+  s!"{r.data.length}" ++ (match r.err with | .none => "n" | .eof => "e" | .other => "x")
+
+def joinOr (sep : String) (l : List String) : String := if l.isEmpty then "-" else sep.intercalate l
+
+def showMsg (got : List Frame) (i : Nat) (m : Msg) : String :=
+  let mine := got.filter fun f => f.key == (m.id.take 8, m.mt)
+  let hs := ((mine.filter fun f => !f.isData).map showHdr).mergeSort (fun a b => decide (a ≤ b))
+  let ds := (mine.filter Frame.isData).map showData
+  -- a request's http.NoBody is not wrapped: the consumer reads it directly
+  let rets := (if m.noBody && m.mt == 1 then m.reads else (bodyRun m.mt (m.id.take 8) 0 m.reads).1).map showRet
+  s!"m{i}=" ++ joinOr "," hs ++ "|" ++ joinOr "," ds ++ "|" ++ joinOr "," rets
+
+def logOp (toks : List String) : String :=
+  match toks.mapM parseMsg with
+  | none => "bad-op"
+  | some ms =>
+    if ms.any (fun m => !idOk m.id) then "panic" else     -- newFrame: id[:8]
+    let frames := (ms.map fun m =>
+      if m.mt == 1 then requestFrames m.id m.hdrs m.noBody m.reads else messageFrames m.mt m.id m.hdrs m.reads).flatten
+    let r := readAll (encodeAll frames)
+    let idx := List.range ms.length
+    " ".intercalate ((idx.zip ms).map (fun p => showMsg r.1 p.1 p.2) ++
+      [s!"end={showStop r.2}", s!"frames={r.1.length}"])
+
+def step (s : St) (toks : List String) : St × String :=
+  match toks with
+  | ["read", h] => (s, match unhex h with | some b => readOp b | none => "bad-op")
+  | "log" :: ms => (s, if ms.isEmpty then "bad-op" else logOp ms)
+  | ["m", tok] => (s ++ [tok], "queued")                  -- same as `log`, one message per op (shrinks better)
+  | ["run"] => ([], if s.isEmpty then "bad-op" else logOp s)
+  | ["runmod"] => ([], if s.isEmpty then "bad-op" else logOp s)   -- through marbl.Modifier: same frames, ids canonicalised by the harness
+  | _ => (s, "bad-op")
 
 end Martian.Drv.C19
